@@ -12,6 +12,8 @@ TARGET = "x86_64-unknown-linux-gnu"
 
 # property -> [(tool, workload, size)]
 PLAN = {
+    "C02": [("miri", "hmc", 1)],
+    "C03": [("miri", "nuts", 1)],
     "C07": [("miri", "concurrent", 1), ("miri", "runner", 1), ("tsan", "concurrent", 3)],
     "C09": [("miri", "runner", 2), ("tsan", "runner", 4)],
     "C10": [("miri", "proto", 1), ("tsan", "proto", 1)],
